@@ -78,8 +78,6 @@ class QuicSession:
         self.portmap = portmap
         self.keep_original_ports = keep_original_ports
 
-        self.init_keys_done = False
-
     # reset Quic Session Parameters, except output buffer and Socket Addresses
     def reset(self):
         self.client_cids = []
@@ -256,9 +254,6 @@ class QuicSession:
 
         if "Initial" not in list(self.decryptors.keys()):
             self.set_initial_decryptor(dcid, False)
-        elif self.tls_session.ciphersuite == b"\x13\x03" and not self.init_keys_done:
-            self.set_initial_decryptor(dcid, True)
-            self.init_keys_done = True
 
         isserver = self.packet_isserver(packet, dcid)
 
